@@ -1,5 +1,6 @@
 import Orx.KSRun
 import Orx.IW.Core
+import Orx.GenThms
 /-! # C17 Same behaviour in debug and optimized builds; std preconditions respected
 
 The model has no build mode: after the `fix:` commits no arithmetic of the crate can overflow and no std
@@ -41,5 +42,41 @@ theorem iters_bounded (r : IW.Req) (b : Nat) (hb : b < W) : IW.iters r b ≤ r.l
 
 /-- the atomic counter wraps the same way in every profile (it is not an overflow-checked `+`) -/
 theorem fetch_add_profile_independent (c n : Nat) : wrapAdd c n = (c + n) % W := rfl
+
+
+/-! ## The source itself (translated on every run), whole input domain
+
+`Generated/Arith.lean` is the crate's arithmetic as it is in `/repo/src` now. A fault of the monad `RS.M` is exactly a
+point where debug and optimized builds would differ (`usize` overflow) or a std precondition would be violated (slice
+index, `ptr::add`, `Taken::new`, `slice_from_raw_parts_mut`, an assertion). None of the pulling functions can fault. -/
+open Orx.RS Orx.Gen Orx.GenThms in
+/-- **No pull, skip or length query of a known-size kind can overflow, index out of range or violate an `unsafe`
+precondition — for every length, counter value and chunk size** (`len, start, stop < 2^64`; `c`, `n` arbitrary). -/
+theorem source_never_faults (len a b n c : Nat) (evs dr) (hl : len < W) (ha : a < W) (hb : b < W) :
+    (∃ v s, Slice.fetch_n (slice len) n (st c evs dr) = .ok v s) ∧ (∃ v s, Slice.fetch_one (slice len) (st c evs dr) = .ok v s) ∧
+    (∃ v s, Vec.fetch_n (vec len) n (st c evs dr) = .ok v s) ∧ (∃ v s, Vec.fetch_one (vec len) (st c evs dr) = .ok v s) ∧
+    (∃ v s, Arr.fetch_n len (arr len) n (st c evs dr) = .ok v s) ∧ (∃ v s, Arr.fetch_one len (arr len) (st c evs dr) = .ok v s) ∧
+    (∃ v s, Range.fetch_n (range a b) n (st c evs dr) = .ok v s) ∧ (∃ v s, Range.fetch_one (range a b) (st c evs dr) = .ok v s) ∧
+    (∃ v s, BufferedIterSlice.next ⟨⟨n⟩, slice len⟩ (st c evs dr) = .ok v s) ∧
+    (∃ v s, BufferedIterVec.next ⟨⟨n⟩, vec len⟩ (st c evs dr) = .ok v s) ∧
+    (∃ v s, BufferedIterArr.next len ⟨⟨n⟩, arr len⟩ (st c evs dr) = .ok v s) ∧
+    (∃ v s, BufferedIterRange.next ⟨⟨n⟩, range a b⟩ (st c evs dr) = .ok v s) ∧
+    (∃ v s, Vec.early_exit (vec len) (st c evs dr) = .ok v s) ∧ (∃ v s, Arr.early_exit len (arr len) (st c evs dr) = .ok v s) ∧
+    (∃ v s, Slice.try_get_len (slice len) (st c evs dr) = .ok v s) ∧ (∃ v s, Range.try_get_len (range a b) (st c evs dr) = .ok v s) ∧
+    (∃ v s, Range.into_seq_iter (range a b) (st c evs dr) = .ok v s) :=
+  ⟨⟨_, _, slice_fetch_n len n c evs dr⟩, ⟨_, _, slice_fetch_one len c evs dr⟩,
+   ⟨_, _, vec_fetch_n len n c evs dr hl⟩, ⟨_, _, vec_fetch_one len c evs dr⟩,
+   ⟨_, _, arr_fetch_n len n c evs dr hl⟩, ⟨_, _, arr_fetch_one len c evs dr⟩,
+   ⟨_, _, range_fetch_n a b n c evs dr ha hb⟩, ⟨_, _, range_fetch_one a b c evs dr ha hb⟩,
+   ⟨_, _, slice_buffered_next len n c evs dr⟩, ⟨_, _, vec_buffered_next len n c evs dr hl⟩,
+   ⟨_, _, arr_buffered_next len n c evs dr hl⟩, ⟨_, _, range_buffered_next a b n c evs dr ha hb⟩,
+   ⟨_, _, vec_early_exit len c evs dr⟩, ⟨_, _, arr_early_exit len c evs dr⟩,
+   ⟨_, _, slice_try_get_len len c evs dr⟩, ⟨_, _, range_try_get_len a b c evs dr⟩,
+   ⟨_, _, range_into_seq_iter a b c evs dr ha hb⟩⟩
+
+open Orx.RS Orx.Gen Orx.GenThms in
+/-- the only panic left is the documented one: `BufferedIter::new` with chunk size 0 -/
+theorem source_only_documented_panic (s : St) : BufferedIterNew.new ⟨0⟩ () s = .fail .assertion :=
+  buffered_new_zero_panics s
 
 end Orx.Props.C17
